@@ -870,9 +870,9 @@ func c16Tilings(c *Ctx) {
 // the open set from piece to piece sees starts and ends coincide while the set
 // is deep.
 func c16Covered(c *Ctx) {
-	depths := []int{0, 1, 1023, 1024, 1025, 1500, 2100}
+	depths := []int{0, 1, 1023, 1024, 1025, 1500, 2100, 4095, 4096, 4097, 5000}
 	if c.Thorough {
-		depths = append(depths, 2047, 2048, 2049, 4100)
+		depths = append(depths, 2047, 2048, 2049, 8191, 8192, 8193, 10000, 20000)
 	}
 	idx := int64(0)
 	for _, d := range depths {
